@@ -331,7 +331,7 @@ def build(ctx, kinds, flavor, ts_a, ts_g, d, emitter='null', parallel=None,
           engine_cls=LoggedEngine, extra_processes=None, extra_topology=None,
           initial_state=None, actor_last=False, issuer='process',
           extra_steps=None, extra_flow=None, first_flavor=None,
-          via_composite=False, extra_first=False):
+          via_composite=False, extra_first=False, actor_below=False):
     LOG.clear()
     CTX.clear()
     CREATED.clear()
@@ -354,6 +354,14 @@ def build(ctx, kinds, flavor, ts_a, ts_g, d, emitter='null', parallel=None,
     flow = {'loc1': {'a1': a['flow']}} if a['flow'] else {}
     topology = {'actor': {'loc1': ('loc1',), 'loc2': ('loc2',)},
                 'loc1': {'a1': a['topology']}}
+    if actor_below:
+        # the actor sits in a compartment of its own; its ports reach the
+        # stores it restructures through '..'
+        processes = {k: v for k, v in processes.items() if k != 'actor'}
+        processes['h2'] = {'actor': actor}
+        del topology['actor']
+        topology['h2'] = {'actor': {'loc1': ('..', 'loc1'),
+                                    'loc2': ('..', 'loc2')}}
     if extra_processes:
         if extra_first:
             # the extra processes are declared before the actor and agents
@@ -385,7 +393,7 @@ def build(ctx, kinds, flavor, ts_a, ts_g, d, emitter='null', parallel=None,
 def _build_step_issuer(a, ops, issuer, emitter, engine_cls, initial_state,
                        extra_processes=None, extra_topology=None,
                        extra_steps=None, extra_flow=None, first_flavor=None,
-          via_composite=False, extra_first=False):
+          via_composite=False, extra_first=False, actor_below=False):
     """The structural updates are issued by a step during a step phase: a
     legacy deriver (listed under processes, runs before all flow steps) or a
     flow step without dependencies (first layer)."""
